@@ -260,12 +260,14 @@ PROPS = {
                            {"test": "^TestC18Burst$", "shards": 4, "checks": 40, "timeout": 600},
                            {"test": "^TestC18LeadingNewline$", "shards": 1, "checks": 20, "timeout": 300},
                            {"test": "^TestC18KeyBlockScalar$", "shards": 1, "checks": 20, "timeout": 300},
-                           {"test": "^TestC18DeepPath$", "shards": 2, "checks": 40, "timeout": 600}]},
+                           {"test": "^TestC18DeepPath$", "shards": 2, "checks": 40, "timeout": 600},
+                           {"test": "^TestC18ListBurst$", "shards": 2, "checks": 40, "timeout": 600}]},
         "thorough": {"runs": [{"test": "^TestC18$", "shards": 12, "checks": 2500, "timeout": 3400},
                               {"test": "^TestC18Burst$", "shards": 4, "checks": 2500, "timeout": 3400},
                               {"test": "^TestC18LeadingNewline$", "shards": 1, "checks": 200, "timeout": 600},
                               {"test": "^TestC18KeyBlockScalar$", "shards": 1, "checks": 200, "timeout": 600},
-                              {"test": "^TestC18DeepPath$", "shards": 2, "checks": 300, "timeout": 1800}]},
+                              {"test": "^TestC18DeepPath$", "shards": 2, "checks": 300, "timeout": 1800},
+                              {"test": "^TestC18ListBurst$", "shards": 4, "checks": 1500, "timeout": 3000}]},
     },
     "C12": {
         "title": "Chat reaches exactly its audience",
@@ -497,7 +499,7 @@ _LATER = {
     "C15": "passwords of 73 / 100 / 255 bytes (bcrypt's limit is 72), names of 300 / 500 / 2000 bytes, new-user over a file that another login's record occupies; no two accounts may share a stored password hash (also the password-less ones); the administrator edits the name of the account it is logged in with and asks for it: get-user, list-users and the file show the new name; TestC15OperatorFile: the account lives in a file that is not named after its login (six file-name patterns sorting before and after <login>.yaml); 1-4 operations out of edit / password change / rename / delete / restart, and after each the listing, a fresh manager and login attempts with every password must agree with the model; TestC15ManyAccounts: 254-513 accounts exist as files at start-up (plus 0-3 made through the protocol): the listing shows each once, a sample logs in; TestC15OperatorFile also gives the login of a deleted account to a new one",
     "C16": "TestC16Wire: creation of shadow logins (./u, u/., U) next to an existing one, set-user spelled in another case, and the account listing fetched before and after an edit must show the edit; TestC16Authz also runs every cell with each of the 24 bits that name no privilege alone (delivered by set-user): nothing may be granted; TestC05 keeps random undefined bits on the set-user path",
     "C17": "a protected account; kicks aimed at a user who is leaving at that instant; reloads of the ban file racing a ban (the in-memory answer is compared too); TestC17Net (child process, production accept loop): three clients from three loopback addresses, one is kicked with a ban: only its address is refused afterwards, the others reconnect; the ban file cannot be rewritten for a while (its temporary name is taken by a folder): a disconnect-with-ban that is acknowledged must be enforced by the running server; restarts and reloads go by the file; TestC17Main: the repository's main program as a child process with a configuration directory of the operator's choice (created by -init): a guest is disconnected with a temporary or permanent ban; the address is refused and another admitted, before and after a restart (SIGTERM or SIGKILL, with or without -init), and the ban file of that directory lists the address",
-    "C18": "stale paths whose last component is missing; the path field absent / empty / zero-count / truncated; delete-item followed by listings of the former sub-paths; posts after deletions keep their parent; TestC18DeepPath: bundles nested 1-40 deep with names of 1-255 bytes (encoded path up to ~5.3 KiB), a category with an article and a reply at the bottom, then nothing / reload / restart: every level lists exactly its child, the articles are listed and fetched, deleting the innermost bundle removes exactly it (non-trivial = encoded path longer than 512 bytes); the operator adds a category to the news file and reloads, a client deletes it: the file a restart would load does not hold it any more",
+    "C18": "stale paths whose last component is missing; the path field absent / empty / zero-count / truncated; delete-item followed by listings of the former sub-paths; posts after deletions keep their parent; TestC18DeepPath: bundles nested 1-40 deep with names of 1-255 bytes (encoded path up to ~5.3 KiB), a category with an article and a reply at the bottom, then nothing / reload / restart: every level lists exactly its child, the articles are listed and fetched, deleting the innermost bundle removes exactly it (non-trivial = encoded path longer than 512 bytes); the operator adds a category to the news file and reloads, a client deletes it: the file a restart would load does not hold it any more; TestC18ListBurst: 3-8 connections list the children of different bundles (3-124 categories each) and of the root at the same instant, for 3-8 rounds: every reply holds exactly the children of the path it asked about",
     "C19": "reloads that fail (unreadable file) and posts that fail (unwritable file; the post may or may not count, nothing else may change), reloads during rounds, operator trims of the board between reads, the date stamp of each post compared with the fake clock (minute of day drawn); posts, the initial board and the agreement hold Mac Roman bytes that are not valid UTF-8; TestC19Main: the repository's main program as a child process: 1-3 times the operator rewrites Agreement.txt or MessageBoard.txt (20 / 600 / 33000 bytes) and sends SIGHUP - in half of the cases while Banlist.yaml or ThreadedNews.yaml cannot be parsed at that moment; the next guest is shown / the next reader is served exactly the rewritten text and the server is still running",
     "C20": "accounts in the legacy storage form are migrated at start-up (privileges compared over the defined bits); after every kill point the touched accounts are also deleted and, for a crashed rename, the new login is created afresh: both must be acknowledged and no other account may vanish; TestC20Acked also compares the in-memory category with the news file at each acknowledgement and includes news replies; after every kill point the accounts the interrupted update was about are also edited in place: the edit must be acknowledged, loaded by the next restart and leave every other account alone; TestC20Main: the repository's own main program (built from the current tree) is started with -init on a missing configuration directory, the administrator of the default configuration makes 1-4 acknowledged changes over loopback TCP (delete / rename / edit the default guest account, create and delete accounts, board post, news category), the process is killed at the last acknowledgement and started again with or without -init: the account directory (production loader) must hold exactly the accounts the acknowledged changes leave, board and news files the posts and categories, and the restarted server must admit the remaining accounts and refuse the deleted and renamed-away logins",
 }
